@@ -6,7 +6,7 @@ Payloads == {0, 1, 9, 76}
 (* what follows the descriptor belongs to the caller whatever it is: arbitrary bytes, or bytes that look like padding (zeros) *)
 Fills(p) == IF p = 0 THEN {"rand"} ELSE {"rand", "zero"}
 Times == {"zero", "typical", "max", "y1900"}
-Guids == {"pkcs7", "other", "zero", "ones", "d1zero"}    \* the type GUID is data: all-zero and all-ones are type GUIDs like any other
+Guids == {"pkcs7", "rsa2048", "other", "zero", "ones", "d1zero"}    \* the type GUID is data: all-zero and all-ones are type GUIDs like any other
 (* what the process decoded before this descriptor: nothing, or the same bytes cut short inside the certificate body (an error) *)
 Priors(t, f) == IF t = "typical" /\ f = "rand" THEN {"none", "trunc"} ELSE {"none"}
 (* well-formed descriptors and certificates *)
